@@ -592,6 +592,10 @@ class Loader:
                     restored = False
                 else:
                     restored = server.put(app)
+                    if restored:
+                        # App lease was re-evaluated, record new expiry.
+                        data['expires'] = app.placement_expiry
+                        self.backend.put(appnode, data)
 
             if not restored:
                 _LOGGER.info('Failed to restore placement %s => %s',
